@@ -6,7 +6,7 @@ import traceback
 
 class Rec(object):
     """ledger look-alike that records the calls (all arguments must be picklable)"""
-    METHODS = ('ok', 'fail', 'undecide', 'function', 'assume', 'trust', 'bounded_item', 'solver_time', 'canary', 'error')
+    METHODS = ('ok', 'fail', 'undecide', 'function', 'assume', 'trust', 'bounded_item', 'solver_time', 'canary', 'error', 'guard_stats')
 
     def __init__(self, tier='quick', known=()):
         self.calls = []
@@ -28,10 +28,13 @@ class Rec(object):
 def _run(arg):
     func, item, tier, known = arg
     rec = Rec(tier, known)
+    from . import numguard
+    before = dict(numguard.STATS)
     try:
         func(rec, item)
     except Exception:
         rec.error('%s: %s' % (item, traceback.format_exc()[-1500:]))
+    rec.guard_stats(numguard.STATS['checked'] - before['checked'], numguard.STATS['skipped'] - before['skipped'])
     return item, rec.calls
 
 
